@@ -94,13 +94,18 @@ def strip_coq_comments(s):
 
 
 class Lock:
-    def __init__(self, name):
+    """flock on build/<name>. Exclusive: whoever may rewrite the shared .vo files (translator, make).
+    Shared: whoever only reads them (Print Assumptions audit, case evaluation) - so that another check's
+    rebuild cannot swap a .vo under a running coqc ('inconsistent assumptions', 'cannot find library')."""
+
+    def __init__(self, name, shared=False):
         os.makedirs(BUILD, exist_ok=True)
         self.path = os.path.join(BUILD, name)
+        self.shared = shared
 
     def __enter__(self):
-        self.f = open(self.path, 'w')
-        fcntl.flock(self.f, fcntl.LOCK_EX)
+        self.f = open(self.path, 'a')
+        fcntl.flock(self.f, fcntl.LOCK_SH if self.shared else fcntl.LOCK_EX)
         return self
 
     def __exit__(self, *a):
@@ -252,7 +257,8 @@ class Check:
             audit += 'Print Assumptions %s.%s.\n' % (m, t)
         ap = os.path.join(self.bdir, 'Audit_%s.v' % self.pid)
         open(ap, 'w').write(audit)
-        rc, out = sh(['coqc', '-Q', os.path.join(COQ, 'theories'), 'Verif', ap], cwd=self.bdir, timeout=1800)
+        with Lock('coq.lock', shared=True):
+            rc, out = sh(['coqc', '-Q', os.path.join(COQ, 'theories'), 'Verif', ap], cwd=self.bdir, timeout=1800)
         if rc != 0:
             problems.append('Print Assumptions run failed: ' + out[-800:])
             self.cov['discharged'] = 0
@@ -332,6 +338,10 @@ class Check:
     # ---------- model evaluation ----------
     def coq_eval_cases(self, cdir, timeout=1800, jobs=16):
         """run coqc on every cases_*.v under cdir in parallel; returns (n_cases_files_ok, mismatching ids, errors)"""
+        with Lock('coq.lock', shared=True):
+            return self._coq_eval_cases(cdir, timeout, jobs)
+
+    def _coq_eval_cases(self, cdir, timeout, jobs):
         files = sorted(glob.glob(os.path.join(cdir, 'cases_*.v')))
         procs = []
         results = []
